@@ -66,13 +66,21 @@ def updVal (cvs : List (List Nat × α)) (s : List Nat) (x : α) : α :=
 theorem updVal_cons (cv : List Nat × α) (cvs : List (List Nat × α)) (s : List Nat) (x : α) :
     updVal (cv :: cvs) s x = updVal cvs s (if hits cv.1 s then cv.2 else x) := rfl
 
+/-- the cells of the key that are not stored. -/
+def freshOf (subs : List (List Nat)) (cvs : List (List Nat × α)) : List (List Nat × α) :=
+  cvs.filter fun cv => !subs.any (hits cv.1)
+
+/-- the pairs the loop appends: every cell that is not stored once, with the last value. -/
+def newOf (subs : List (List Nat)) (cvs : List (List Nat × α)) : List (List Nat × α) :=
+  (freshOf subs cvs).foldl addNew []
+
 theorem setLoop_fold (subs : List (List Nat)) (cvs : List (List Nat × α)) (v0 : List α)
     (n0 : List (List Nat × α)) (hl : subs.length = v0.length) :
     cvs.foldl (setCell subs) (v0, n0) =
-      (List.zipWith (updVal cvs) subs v0, n0 ++ cvs.filter fun cv => !subs.any (hits cv.1)) := by
+      (List.zipWith (updVal cvs) subs v0, (freshOf subs cvs).foldl addNew n0) := by
   induction cvs generalizing v0 n0 with
   | nil =>
-    simp only [List.foldl_nil, List.filter_nil, List.append_nil]
+    simp only [List.foldl_nil, freshOf, List.filter_nil]
     congr 1
     exact (zipWith_snd_of_length subs v0 hl).symm
   | cons cv cvs ih =>
@@ -82,14 +90,14 @@ theorem setLoop_fold (subs : List (List Nat)) (cvs : List (List Nat × α)) (v0 
           (List.zipWith (fun s x => if hits cv.1 s then cv.2 else x) subs v0, n0) := by
         simp [setCell, hany]
       rw [hs, ih _ _ (by simp [hl])]
-      rw [zipWith_zipWith_left, List.filter_cons]
-      simp only [hany, Bool.not_true, Bool.false_eq_true, if_false]
+      rw [zipWith_zipWith_left]
+      simp only [freshOf, List.filter_cons, hany, Bool.not_true, Bool.false_eq_true, if_false]
       rfl
     · have hany' : subs.any (hits cv.1) = false := by simpa using hany
-      have hs : setCell subs (v0, n0) cv = (v0, n0 ++ [cv]) := by
+      have hs : setCell subs (v0, n0) cv = (v0, addNew n0 cv) := by
         simp [setCell, hany']
-      rw [hs, ih _ _ hl, List.filter_cons]
-      simp only [hany', Bool.not_false, if_true, List.append_assoc, List.singleton_append]
+      rw [hs, ih _ _ hl]
+      simp only [freshOf, List.filter_cons, hany', Bool.not_false, if_true, List.foldl_cons]
       congr 1
       apply zipWith_congr_mem
       intro s hs x
@@ -99,45 +107,147 @@ theorem setLoop_fold (subs : List (List Nat)) (cvs : List (List Nat × α)) (v0 
       rw [updVal_cons, this]
       simp
 
+/-! ### the appended pairs -/
+
+theorem addNew_keys (new : List (List Nat × α)) (cv : List Nat × α) :
+    (addNew new cv).map (·.1) =
+      if new.any (fun e => e.1 == cv.1) then new.map (·.1) else new.map (·.1) ++ [cv.1] := by
+  unfold addNew
+  split
+  · rw [List.map_map]
+    apply List.map_congr_left
+    intro e _
+    simp only [Function.comp]
+    split <;> rfl
+  · simp
+
+theorem addNew_keys_nodup (new : List (List Nat × α)) (cv : List Nat × α) (h : (new.map (·.1)).Nodup) :
+    ((addNew new cv).map (·.1)).Nodup := by
+  rw [addNew_keys]
+  split
+  · exact h
+  · next hn =>
+    rw [List.nodup_append]
+    refine ⟨h, by simp, ?_⟩
+    intro a ha b hb hab
+    simp only [List.mem_singleton] at hb
+    rw [hab, hb] at ha
+    apply hn
+    obtain ⟨e, he, hk⟩ := List.mem_map.1 ha
+    rw [List.any_eq_true]
+    exact ⟨e, he, by simpa using hk⟩
+
+theorem addNew_mem_keys (new : List (List Nat × α)) (cv : List Nat × α) (i : List Nat) :
+    i ∈ (addNew new cv).map (·.1) ↔ i ∈ new.map (·.1) ∨ i = cv.1 := by
+  rw [addNew_keys]
+  split
+  · next hy =>
+    constructor
+    · exact Or.inl
+    · rintro (h | rfl)
+      · exact h
+      · rw [List.any_eq_true] at hy
+        obtain ⟨e, he, hk⟩ := hy
+        exact List.mem_map.2 ⟨e, he, by simpa using hk⟩
+  · simp
+
+theorem fold_addNew_keys_nodup (l acc : List (List Nat × α)) (h : (acc.map (·.1)).Nodup) :
+    ((l.foldl addNew acc).map (·.1)).Nodup := by
+  induction l generalizing acc with
+  | nil => exact h
+  | cons cv l ih => exact ih _ (addNew_keys_nodup acc cv h)
+
+theorem fold_addNew_mem_keys (l acc : List (List Nat × α)) (i : List Nat) :
+    i ∈ (l.foldl addNew acc).map (·.1) ↔ i ∈ acc.map (·.1) ∨ i ∈ l.map (·.1) := by
+  induction l generalizing acc with
+  | nil => simp
+  | cons cv l ih =>
+    rw [List.foldl_cons, ih, addNew_mem_keys]
+    simp only [List.map_cons, List.mem_cons]
+    constructor
+    · rintro ((h | h) | h)
+      · exact Or.inl h
+      · exact Or.inr (Or.inl h)
+      · exact Or.inr (Or.inr h)
+    · rintro (h | h | h)
+      · exact Or.inl (Or.inl h)
+      · exact Or.inl (Or.inr h)
+      · exact Or.inr h
+
+theorem newOf_keys_nodup (subs : List (List Nat)) (cvs : List (List Nat × α)) :
+    ((newOf subs cvs).map (·.1)).Nodup :=
+  fold_addNew_keys_nodup _ [] (by simp)
+
+theorem newOf_mem_keys (subs : List (List Nat)) (cvs : List (List Nat × α)) (i : List Nat) :
+    i ∈ (newOf subs cvs).map (·.1) ↔ i ∈ (freshOf subs cvs).map (·.1) := by
+  unfold newOf
+  rw [fold_addNew_mem_keys]
+  simp
+
+theorem newOf_eq_nil_iff (subs : List (List Nat)) (cvs : List (List Nat × α)) :
+    newOf subs cvs = [] ↔ freshOf subs cvs = [] := by
+  constructor
+  · intro h
+    rw [List.eq_nil_iff_forall_not_mem]
+    intro cv hcv
+    have : cv.1 ∈ (newOf subs cvs).map (·.1) := (newOf_mem_keys subs cvs cv.1).2 (List.mem_map.2 ⟨cv, hcv, rfl⟩)
+    rw [h] at this
+    simp at this
+  · intro h
+    unfold newOf
+    rw [h]
+    rfl
+
 /-- the unsorted result of the loop as one sparse matrix: the stored pairs with their
 (possibly overwritten) values, then the appended pairs. -/
 def loopResult (M : Sptenmat α) (cvs : List (List Nat × α)) : Sparse α :=
-  let new := cvs.filter fun cv => !M.subs.any (hits cv.1)
-  ⟨M.mshape, M.subs ++ new.map (·.1), List.zipWith (updVal cvs) M.subs M.vals ++ new.map (·.2)⟩
+  ⟨M.mshape, M.subs ++ (newOf M.subs cvs).map (·.1),
+    List.zipWith (updVal cvs) M.subs M.vals ++ (newOf M.subs cvs).map (·.2)⟩
 
 theorem loopResult_entries (M : Sptenmat α) (cvs : List (List Nat × α)) (hl : M.subs.length = M.vals.length) :
     (loopResult M cvs).entries =
-      (M.mat.entries.map fun e => (e.1, updVal cvs e.1 e.2)) ++
-        cvs.filter fun cv => !M.subs.any (hits cv.1) := by
+      (M.mat.entries.map fun e => (e.1, updVal cvs e.1 e.2)) ++ newOf M.subs cvs := by
   simp only [loopResult, Sparse.entries, mat]
   rw [List.zip_append (by simp [hl]), zip_zipWith_left, zip_unzip_self]
 
-theorem mshape_setApply (M : Sptenmat α) (cvs : List (List Nat × α)) :
+theorem loopResult_len (M : Sptenmat α) (cvs : List (List Nat × α)) (hl : M.subs.length = M.vals.length) :
+    (loopResult M cvs).subs.length = (loopResult M cvs).vals.length := by
+  simp [loopResult, hl]
+
+/-- the loop result without the entries whose value is zero. -/
+def finalResult [Zero α] [BEq α] (M : Sptenmat α) (cvs : List (List Nat × α)) : Sparse α :=
+  ⟨M.mshape, ((loopResult M cvs).entries.filter fun e => !(e.2 == 0)).map (·.1),
+    ((loopResult M cvs).entries.filter fun e => !(e.2 == 0)).map (·.2)⟩
+
+theorem finalResult_entries [Zero α] [BEq α] (M : Sptenmat α) (cvs : List (List Nat × α)) :
+    (finalResult M cvs).entries = (loopResult M cvs).entries.filter fun e => !(e.2 == 0) := by
+  simp only [finalResult, Sparse.entries]
+  exact zip_unzip_self _
+
+theorem mshape_setApply [Zero α] [BEq α] (M : Sptenmat α) (cvs : List (List Nat × α)) :
     (M.setApply cvs).tshape = M.tshape ∧ (M.setApply cvs).rdims = M.rdims ∧
       (M.setApply cvs).cdims = M.cdims ∧ (M.setApply cvs).mshape = M.mshape := by
   unfold setApply
-  simp only
-  split <;> simp [mshape]
+  simp [mshape]
 
-/-- the stored result of `__setitem__` holds the entries of the loop result, sorted when
-something was appended. -/
-theorem setApply_reorder (M : Sptenmat α) (cvs : List (List Nat × α)) (hl : M.subs.length = M.vals.length) :
-    Reorder (M.setApply cvs).mat (loopResult M cvs) := by
+/-- the stored result of `__setitem__` holds the entries of the loop result that are not zero,
+sorted when something was appended. -/
+theorem setApply_reorder [Zero α] [BEq α] (M : Sptenmat α) (cvs : List (List Nat × α))
+    (hl : M.subs.length = M.vals.length) :
+    Reorder (M.setApply cvs).mat (finalResult M cvs) := by
   have hm := (mshape_setApply M cvs).2.2.2
   refine ⟨hm, ?_, ?_⟩
   · unfold setApply
-    simp only [mat, setLoop, setLoop_fold M.subs cvs M.vals [] hl, List.nil_append]
-    split
-    · simp [hl]
-    · simp
-  · rw [loopResult_entries M cvs hl]
+    simp [mat]
+  · rw [finalResult_entries, loopResult_entries M cvs hl]
     unfold setApply
-    simp only [mat, setLoop, setLoop_fold M.subs cvs M.vals [] hl, List.nil_append, Sparse.entries]
+    simp only [mat, setLoop, setLoop_fold M.subs cvs M.vals [] hl, Sparse.entries, zip_unzip_self]
+    apply List.Perm.filter
     split
     · next he =>
-      have : (cvs.filter fun cv => !M.subs.any (hits cv.1)) = [] := by simpa using he
+      have : newOf M.subs cvs = [] := by unfold newOf; simpa using he
       rw [this, List.append_nil, zip_zipWith_left]
-    · simp only [zip_unzip_self, sortEntries]
+    · simp only [sortEntries]
       rw [zip_zipWith_left]
       exact List.mergeSort_perm _ _
 
@@ -148,27 +258,30 @@ theorem perm_subs_of_entries {S' S : Sparse α} (hl' : S'.subs.length = S'.vals.
   rw [← S'.entries_keys hl', ← S.entries_keys hl]
   exact hp.map _
 
+theorem any_hits_perm {l' l : List (List Nat)} (h : l'.Perm l) (c : List Nat) :
+    l'.any (hits c) = l.any (hits c) := by
+  rw [Bool.eq_iff_iff, List.any_eq_true, List.any_eq_true]
+  constructor
+  · rintro ⟨x, hx, hh⟩; exact ⟨x, h.mem_iff.1 hx, hh⟩
+  · rintro ⟨x, hx, hh⟩; exact ⟨x, h.mem_iff.2 hx, hh⟩
+
+theorem freshOf_perm {l' l : List (List Nat)} (h : l'.Perm l) (cvs : List (List Nat × α)) :
+    freshOf l' cvs = freshOf l cvs := by
+  unfold freshOf
+  apply List.filter_congr
+  intro cv _
+  rw [any_hits_perm h]
+
 /-- the loop result for a reordered receiver holds the same pairs. -/
 theorem loopResult_perm (M M' : Sptenmat α) (cvs : List (List Nat × α)) (hl : M.subs.length = M.vals.length)
     (r : Reorder M'.mat M.mat) : Reorder (loopResult M' cvs) (loopResult M cvs) := by
   obtain ⟨hsh, hl', hp⟩ := r
   have hps : M'.subs.Perm M.subs := perm_subs_of_entries (S' := M'.mat) (S := M.mat) hl' hl hp
-  have hany : ∀ c : List Nat, M'.subs.any (hits c) = M.subs.any (hits c) := by
-    intro c
-    rw [Bool.eq_iff_iff, List.any_eq_true, List.any_eq_true]
-    constructor
-    · rintro ⟨x, hx, h⟩; exact ⟨x, hps.mem_iff.1 hx, h⟩
-    · rintro ⟨x, hx, h⟩; exact ⟨x, hps.mem_iff.2 hx, h⟩
-  refine ⟨hsh, ?_, ?_⟩
-  · have : M'.subs.length = M'.vals.length := hl'
-    simp [loopResult, this]
-  · rw [loopResult_entries M' cvs hl', loopResult_entries M cvs hl]
-    have hf : (cvs.filter fun cv => !M'.subs.any (hits cv.1)) = cvs.filter fun cv => !M.subs.any (hits cv.1) := by
-      apply List.filter_congr
-      intro cv _
-      rw [hany]
-    rw [hf]
-    exact List.Perm.append_right _ (hp.map _)
+  refine ⟨hsh, loopResult_len M' cvs hl', ?_⟩
+  rw [loopResult_entries M' cvs hl', loopResult_entries M cvs hl]
+  have hf : newOf M'.subs cvs = newOf M.subs cvs := by unfold newOf; rw [freshOf_perm hps]
+  rw [hf]
+  exact List.Perm.append_right _ (hp.map _)
 
 theorem reorder_trans {A B C : Sparse α} (h1 : Reorder A B) (h2 : Reorder B C) : Reorder A C :=
   ⟨h1.1.trans h2.1, h1.2.1, h1.2.2.trans h2.2.2⟩
@@ -176,17 +289,25 @@ theorem reorder_trans {A B C : Sparse α} (h1 : Reorder A B) (h2 : Reorder B C) 
 theorem reorder_symm {A B : Sparse α} (h : Reorder A B) (hl : B.subs.length = B.vals.length) : Reorder B A :=
   ⟨h.1.symm, hl, h.2.2.symm⟩
 
-theorem loopResult_len (M : Sptenmat α) (cvs : List (List Nat × α)) (hl : M.subs.length = M.vals.length) :
-    (loopResult M cvs).subs.length = (loopResult M cvs).vals.length := by
-  simp [loopResult, hl]
+theorem finalResult_len [Zero α] [BEq α] (M : Sptenmat α) (cvs : List (List Nat × α)) :
+    (finalResult M cvs).subs.length = (finalResult M cvs).vals.length := by
+  simp [finalResult]
+
+theorem finalResult_perm [Zero α] [BEq α] (M M' : Sptenmat α) (cvs : List (List Nat × α))
+    (hl : M.subs.length = M.vals.length) (r : Reorder M'.mat M.mat) :
+    Reorder (finalResult M' cvs) (finalResult M cvs) := by
+  refine ⟨r.1, finalResult_len M' cvs, ?_⟩
+  rw [finalResult_entries, finalResult_entries]
+  exact (loopResult_perm M M' cvs hl r).2.2.filter _
 
 /-- `__setitem__` on a reordered receiver stores the same pairs. -/
-theorem setApply_perm (M M' : Sptenmat α) (cvs : List (List Nat × α)) (hl : M.subs.length = M.vals.length)
+theorem setApply_perm [Zero α] [BEq α] (M M' : Sptenmat α) (cvs : List (List Nat × α))
+    (hl : M.subs.length = M.vals.length)
     (r : Reorder M'.mat M.mat) : Reorder (M'.setApply cvs).mat (M.setApply cvs).mat := by
   have h1 := setApply_reorder M' cvs r.2.1
-  have h2 := loopResult_perm M M' cvs hl r
+  have h2 := finalResult_perm M M' cvs hl r
   have h3 := setApply_reorder M cvs hl
-  exact reorder_trans (reorder_trans h1 h2) (reorder_symm h3 (loopResult_len M cvs hl))
+  exact reorder_trans (reorder_trans h1 h2) (reorder_symm h3 (finalResult_len M cvs))
 
 /-- the checks look at the key, the value and the matrix shape only. -/
 theorem setCells_congr (M M' : Sptenmat α) (key : List KeyPart) (rhs : SetRhs α)
@@ -272,57 +393,175 @@ theorem mem_zipWith_exists {β γ δ : Type} (g : β → γ → δ) (l : List β
 
 /-! ### well-formedness after `__setitem__` -/
 
-/-- When the key names no cell twice and no assigned value is zero, the loop result — hence
-the stored result — is well-formed. -/
-theorem loopResult_wf [Zero α] [BEq α] (M : Sptenmat α) (cvs : List (List Nat × α)) (hM : M.mat.WF)
-    (hin : ∀ cv ∈ cvs, InBounds M.mshape cv.1) (hnd : (cvs.map (·.1)).Nodup)
-    (hnz : ∀ cv ∈ cvs, (cv.2 == 0) = false) : (loopResult M cvs).WF := by
+theorem loopResult_keys_nodup [Zero α] [BEq α] (M : Sptenmat α) (cvs : List (List Nat × α)) (hM : M.mat.WF) :
+    (loopResult M cvs).subs.Nodup := by
+  simp only [loopResult]
+  rw [List.nodup_append]
+  refine ⟨hM.nodup, newOf_keys_nodup _ _, ?_⟩
+  intro a ha b hb hab
+  subst hab
+  have hb' := (newOf_mem_keys M.subs cvs a).1 hb
+  obtain ⟨cv, hcv, rfl⟩ := List.mem_map.1 hb'
+  have := (List.mem_filter.1 hcv).2
+  simp only [Bool.not_eq_true', List.any_eq_false] at this
+  exact this cv.1 ha (hits_self _)
+
+/-- For EVERY accepted key and value (cells named twice, zero values included) the stored
+result of `__setitem__` on a well-formed receiver is well-formed. -/
+theorem finalResult_wf [Zero α] [BEq α] (M : Sptenmat α) (cvs : List (List Nat × α)) (hM : M.mat.WF)
+    (hin : ∀ cv ∈ cvs, InBounds M.mshape cv.1) : (finalResult M cvs).WF := by
   have hl : M.subs.length = M.vals.length := hM.len
-  refine ⟨loopResult_len M cvs hl, ?_, ?_, ?_⟩
+  have hkeys : (loopResult M cvs).entries.map (·.1) = (loopResult M cvs).subs :=
+    (loopResult M cvs).entries_keys (loopResult_len M cvs hl)
+  have hsub : (((loopResult M cvs).entries.filter fun e => !(e.2 == 0)).map (·.1)).Sublist (loopResult M cvs).subs := by
+    rw [← hkeys]
+    exact List.Sublist.map _ List.filter_sublist
+  refine ⟨finalResult_len M cvs, ?_, ?_, ?_⟩
   · intro i hi
-    simp only [loopResult, List.mem_append, List.mem_map, List.mem_filter] at hi
-    rcases hi with hi | ⟨cv, ⟨hcv, _⟩, rfl⟩
-    · exact hM.inb i hi
-    · exact hin cv hcv
-  · simp only [loopResult]
-    rw [List.nodup_append]
-    refine ⟨hM.nodup, ?_, ?_⟩
-    · exact List.Nodup.sublist (List.Sublist.map _ List.filter_sublist) hnd
-    · intro a ha b hb hab
-      subst hab
-      obtain ⟨cv, hcv, rfl⟩ := List.mem_map.1 hb
-      have := (List.mem_filter.1 hcv).2
-      simp only [Bool.not_eq_true', List.any_eq_false] at this
-      exact this cv.1 ha (hits_self _)
+    have hi' : i ∈ (loopResult M cvs).subs := hsub.subset hi
+    simp only [loopResult, List.mem_append] at hi'
+    rcases hi' with h | h
+    · exact hM.inb i h
+    · have := (newOf_mem_keys M.subs cvs i).1 h
+      obtain ⟨cv, hcv, rfl⟩ := List.mem_map.1 this
+      exact hin cv (List.mem_filter.1 hcv).1
+  · exact List.Nodup.sublist hsub (loopResult_keys_nodup M cvs hM)
   · intro v hv
-    simp only [loopResult, List.mem_append, List.mem_map, List.mem_filter] at hv
-    rcases hv with hv | ⟨cv, ⟨hcv, _⟩, rfl⟩
-    · obtain ⟨s, hs, x, hx, rfl⟩ := mem_zipWith_exists _ _ _ _ hv
-      rcases updVal_cases cvs s x with h | ⟨cw, hcw, h⟩
-      · rw [h]; exact hM.nz x hx
-      · rw [h]; exact hnz cw hcw
-    · exact hnz cv hcv
+    simp only [finalResult, List.mem_map, List.mem_filter] at hv
+    obtain ⟨e, ⟨_, hz⟩, rfl⟩ := hv
+    simpa using hz
 
 theorem setApply_wf [Zero α] [BEq α] (M : Sptenmat α) (cvs : List (List Nat × α)) (hM : M.mat.WF)
-    (hin : ∀ cv ∈ cvs, InBounds M.mshape cv.1) (hnd : (cvs.map (·.1)).Nodup)
-    (hnz : ∀ cv ∈ cvs, (cv.2 == 0) = false) : (M.setApply cvs).mat.WF :=
-  wf_perm (setApply_reorder M cvs hM.len) (loopResult_wf M cvs hM hin hnd hnz)
+    (hin : ∀ cv ∈ cvs, InBounds M.mshape cv.1) : (M.setApply cvs).mat.WF :=
+  wf_perm (setApply_reorder M cvs hM.len) (finalResult_wf M cvs hM hin)
 
 /-! ### the matrix after `__setitem__` -/
 
 section den
 variable [AddCommMonoid α] [DecidableEq α]
 
+theorem kvSum_map_same_key (l : List (List Nat × α)) (g : List Nat × α → List Nat × α) (i : List Nat)
+    (hk : ∀ e ∈ l, (g e).1 = e.1) (hi : ∀ e ∈ l, e.1 = i → g e = e) : kvSum (l.map g) i = kvSum l i := by
+  induction l with
+  | nil => rfl
+  | cons e l ih =>
+    rw [List.map_cons]
+    have ih' := ih (fun x hx => hk x (by simp [hx])) (fun x hx => hi x (by simp [hx]))
+    by_cases he : e.1 = i
+    · rw [hi e (by simp) he]
+      obtain ⟨a, v⟩ := e
+      simp only at he
+      subst he
+      rw [kvSum_cons_eq, kvSum_cons_eq, ih']
+    · have : (g e).1 ≠ i := by rw [hk e (by simp)]; exact he
+      rw [kvSum_cons_ne _ _ _ this, kvSum_cons_ne _ _ _ he, ih']
+
+theorem addNew_kvSum (new : List (List Nat × α)) (cv : List Nat × α) (h : (new.map (·.1)).Nodup) (i : List Nat) :
+    kvSum (addNew new cv) i = if cv.1 = i then cv.2 else kvSum new i := by
+  by_cases hy : new.any (fun e => e.1 == cv.1) = true
+  · have hnd := addNew_keys_nodup new cv h
+    by_cases hi : cv.1 = i
+    · rw [if_pos hi]
+      rw [List.any_eq_true] at hy
+      obtain ⟨e, he, hk⟩ := hy
+      have hk' : e.1 = cv.1 := by simpa using hk
+      apply kvSum_of_mem _ _ _ hnd
+      unfold addNew
+      rw [if_pos (by rw [List.any_eq_true]; exact ⟨e, he, hk⟩)]
+      refine List.mem_map.2 ⟨e, he, ?_⟩
+      rw [if_pos (by simpa using hk'), hk', hi]
+    · rw [if_neg hi]
+      unfold addNew
+      rw [if_pos hy]
+      apply kvSum_map_same_key
+      · intro e _; split <;> rfl
+      · intro e _ hei
+        have : ¬ (e.1 == cv.1) = true := by
+          simp only [beq_iff_eq]
+          intro h'; exact hi (h'.symm.trans hei)
+        rw [if_neg this]
+  · have hy' : new.any (fun e => e.1 == cv.1) = false := by
+      cases hq : new.any (fun e => e.1 == cv.1) with
+      | true => exact absurd hq hy
+      | false => rfl
+    unfold addNew
+    rw [if_neg hy, kvSum_append]
+    by_cases hi : cv.1 = i
+    · rw [if_pos hi]
+      have h0 : kvSum new i = 0 := by
+        apply kvSum_of_not_mem
+        intro hm
+        obtain ⟨e, he, hk⟩ := List.mem_map.1 hm
+        rw [List.any_eq_false] at hy'
+        have := hy' e he
+        simp only [beq_iff_eq] at this
+        exact this (hk.trans hi.symm)
+      obtain ⟨c, v⟩ := cv
+      simp only at hi
+      subst hi
+      rw [h0, zero_add, kvSum_cons_eq, kvSum_nil, add_zero]
+    · rw [if_neg hi, kvSum_cons_ne _ _ _ hi, kvSum_nil, add_zero]
+
+theorem fold_addNew_kvSum (l acc : List (List Nat × α)) (h : (acc.map (·.1)).Nodup) (i : List Nat) :
+    kvSum (l.foldl addNew acc) i = if i ∈ l.map (·.1) then kvLast l i else kvSum acc i := by
+  induction l generalizing acc with
+  | nil => simp
+  | cons cv l ih =>
+    rw [List.foldl_cons, ih _ (addNew_keys_nodup acc cv h), kvLast_cons, addNew_kvSum acc cv h]
+    by_cases h1 : i ∈ l.map (·.1)
+    · have : i ∈ (cv :: l).map (·.1) := by simp only [List.map_cons, List.mem_cons]; exact Or.inr h1
+      rw [if_pos h1, if_pos this, if_pos h1]
+    · rw [if_neg h1, if_neg h1]
+      by_cases h2 : cv.1 = i
+      · have : i ∈ (cv :: l).map (·.1) := by simp [h2.symm]
+        rw [if_pos this, if_pos h2, if_pos h2]
+      · have : i ∉ (cv :: l).map (·.1) := by
+          simp only [List.map_cons, List.mem_cons, not_or]
+          exact ⟨fun e => h2 e.symm, h1⟩
+        rw [if_neg this, if_neg h2]
+
+/-- filtering by a condition on the key does not change the last value under a key that passes. -/
+theorem kvLast_filter_key (l : List (List Nat × α)) (p : List Nat → Bool) (i : List Nat) (hp : p i = true) :
+    kvLast (l.filter fun e => p e.1) i = kvLast l i ∧
+      (i ∈ (l.filter fun e => p e.1).map (·.1) ↔ i ∈ l.map (·.1)) := by
+  induction l with
+  | nil => simp
+  | cons e l ih =>
+    obtain ⟨ih1, ih2⟩ := ih
+    by_cases hpe : p e.1 = true
+    · rw [List.filter_cons, if_pos hpe, kvLast_cons, kvLast_cons, ih1]
+      refine ⟨?_, ?_⟩
+      · by_cases h1 : i ∈ l.map (·.1)
+        · rw [if_pos h1, if_pos (ih2.2 h1)]
+        · rw [if_neg h1, if_neg (fun h => h1 (ih2.1 h))]
+      · simp only [List.map_cons, List.mem_cons, ih2]
+    · have hne : e.1 ≠ i := fun h => hpe (h ▸ hp)
+      rw [List.filter_cons, if_neg hpe, kvLast_cons, ih1]
+      refine ⟨?_, ?_⟩
+      · by_cases h1 : i ∈ l.map (·.1)
+        · rw [if_pos h1]
+        · rw [if_neg h1, if_neg hne]
+          exact kvLast_of_not_mem _ _ h1
+      · rw [ih2]
+        simp only [List.map_cons, List.mem_cons]
+        constructor
+        · exact Or.inr
+        · rintro (h | h)
+          · exact absurd h.symm hne
+          · exact h
+
 theorem loopResult_get (M : Sptenmat α) (cvs : List (List Nat × α)) (hM : M.mat.WF)
-    (hin : ∀ cv ∈ cvs, InBounds M.mshape cv.1) (hnd : (cvs.map (·.1)).Nodup) (i : List Nat) :
+    (hin : ∀ cv ∈ cvs, InBounds M.mshape cv.1) (i : List Nat) :
     (loopResult M cvs).get i = if i ∈ cvs.map (·.1) then kvLast cvs i else M.mat.get i := by
   have hl : M.subs.length = M.vals.length := hM.len
   rw [Sparse.get_eq_kvSum, loopResult_entries M cvs hl, kvSum_append]
   have hkeys : M.mat.entries.map (·.1) = M.subs := M.mat.entries_keys hl
   have hkeys' : (M.mat.entries.map fun e => (e.1, updVal cvs e.1 e.2)).map (·.1) = M.subs := by
     rw [List.map_map]; exact hkeys
-  have hnew_nd : ((cvs.filter fun cv => !M.subs.any (hits cv.1)).map (·.1)).Nodup :=
-    List.Nodup.sublist (List.Sublist.map _ List.filter_sublist) hnd
+  have hnew : kvSum (newOf M.subs cvs) i =
+      if i ∈ (freshOf M.subs cvs).map (·.1) then kvLast (freshOf M.subs cvs) i else 0 := by
+    unfold newOf
+    rw [fold_addNew_kvSum _ [] (by simp) i, kvSum_nil]
   -- pairs of the key and stored pairs are (row, column) pairs: `hits` is equality
   have hhit : ∀ cv ∈ cvs, ∀ s ∈ M.subs, hits cv.1 s = (cv.1 == s) := fun cv hcv s hs =>
     hits_eq_beq (mshape_length M) (hin cv hcv) (hM.inb s hs)
@@ -335,8 +574,8 @@ theorem loopResult_get (M : Sptenmat α) (cvs : List (List Nat × α)) (hM : M.m
     have h1 : kvSum (M.mat.entries.map fun e => (e.1, updVal cvs e.1 e.2)) i = updVal cvs i e.2 := by
       apply kvSum_of_mem _ _ _ (by rw [hkeys']; exact hM.nodup)
       exact List.mem_map.2 ⟨e, he, by rw [hei]⟩
-    have h2 : kvSum (cvs.filter fun cv => !M.subs.any (hits cv.1)) i = 0 := by
-      apply kvSum_of_not_mem
+    have h2 : kvSum (newOf M.subs cvs) i = 0 := by
+      rw [hnew, if_neg]
       intro hc
       obtain ⟨cv, hcv, rfl⟩ := List.mem_map.1 hc
       have := (List.mem_filter.1 hcv).2
@@ -351,33 +590,33 @@ theorem loopResult_get (M : Sptenmat α) (cvs : List (List Nat × α)) (hM : M.m
     have h1 : kvSum (M.mat.entries.map fun e => (e.1, updVal cvs e.1 e.2)) i = 0 :=
       kvSum_of_not_mem _ _ (by rw [hkeys']; exact hs)
     have h0 : M.mat.get i = 0 := M.mat.get_of_not_mem i hs
-    rw [h1, zero_add, h0]
+    rw [h1, zero_add, h0, hnew]
     by_cases hc : i ∈ cvs.map (·.1)
-    · rw [if_pos hc]
-      obtain ⟨cv, hcv, rfl⟩ := List.mem_map.1 hc
-      have hnew : cv ∈ cvs.filter fun cv => !M.subs.any (hits cv.1) := by
-        rw [List.mem_filter]
-        refine ⟨hcv, ?_⟩
+    · obtain ⟨cv, hcv, hcvi⟩ := List.mem_map.1 hc
+      have hp : (fun c : List Nat => !M.subs.any (hits c)) i = true := by
         simp only [Bool.not_eq_true', List.any_eq_false]
         intro s hs'
-        rw [hhit cv hcv s hs']
-        have : cv.1 ≠ s := fun e => hs (e ▸ hs')
+        rw [← hcvi, hhit cv hcv s hs']
+        have : cv.1 ≠ s := fun e => hs (hcvi ▸ e ▸ hs')
         simpa using this
-      rw [kvSum_of_mem _ cv.1 cv.2 hnew_nd hnew, kvLast_of_mem cvs cv.1 cv.2 hnd hcv]
-    · rw [if_neg hc]
-      apply kvSum_of_not_mem
+      obtain ⟨k1, k2⟩ := kvLast_filter_key cvs (fun c => !M.subs.any (hits c)) i hp
+      have k2' : i ∈ (freshOf M.subs cvs).map (·.1) := k2.2 hc
+      rw [if_pos hc, if_pos k2']
+      exact k1
+    · rw [if_neg hc, if_neg]
       intro hc'
       apply hc
       obtain ⟨cv, hcv, rfl⟩ := List.mem_map.1 hc'
       exact List.mem_map.2 ⟨cv, (List.mem_filter.1 hcv).1, rfl⟩
 
-/-- After `M[key] = value` every cell named by the key holds its value (the last one given),
-every other cell what it held before. -/
+/-- After `M[key] = value` every cell named by the key holds its value (the last one given; an
+assigned zero leaves the cell empty), every other cell what it held before. -/
 theorem setApply_get (M : Sptenmat α) (cvs : List (List Nat × α)) (hM : M.mat.WF)
-    (hin : ∀ cv ∈ cvs, InBounds M.mshape cv.1) (hnd : (cvs.map (·.1)).Nodup) (i : List Nat) :
+    (hin : ∀ cv ∈ cvs, InBounds M.mshape cv.1) (i : List Nat) :
     (M.setApply cvs).mat.get i = if i ∈ cvs.map (·.1) then kvLast cvs i else M.mat.get i := by
-  rw [denote_perm (setApply_reorder M cvs hM.len) i]
-  exact loopResult_get M cvs hM hin hnd i
+  rw [denote_perm (setApply_reorder M cvs hM.len) i, Sparse.get_eq_kvSum, finalResult_entries,
+    ML.kvSum_filter_nz, ← Sparse.get_eq_kvSum]
+  exact loopResult_get M cvs hM hin i
 
 end den
 
@@ -730,14 +969,6 @@ theorem full_spec [AddMonoid α] [DecidableEq α] (M : Sptenmat α) (hM : M.mat.
     subst h
     refine ⟨rfl, rfl, rfl, Dense.ofFn_WF _ _, rfl, fun i hi => ?_⟩
     exact (sp_full_at M.mat hM i hi).1
-
-theorem isequal_iff [DecidableEq α] (M N : Sptenmat α) : M.isequal N = true ↔ M = N := by
-  unfold isequal
-  cases M; cases N
-  simp only [Bool.and_eq_true, beq_iff_eq, Sptenmat.mk.injEq]
-  constructor
-  · rintro ⟨⟨⟨⟨h1, h2⟩, h3⟩, h4⟩, h5⟩; exact ⟨h3, h5, h4, h2, h1⟩
-  · rintro ⟨h3, h5, h4, h2, h1⟩; exact ⟨⟨⟨⟨h1, h2⟩, h3⟩, h4⟩, h5⟩
 
 /-! ### `to_sptensor` -/
 
